@@ -15,11 +15,11 @@ import (
 type fixedHasher struct{ out []byte }
 
 func (f *fixedHasher) Algorithm() hash.HashingAlgorithm { return hash.UnknownHashingAlgorithm }
-func (f *fixedHasher) Size() int                       { return len(f.out) }
-func (f *fixedHasher) ComputeHash([]byte) hash.Hash    { return append([]byte{}, f.out...) }
-func (f *fixedHasher) Write(p []byte) (int, error)     { return len(p), nil }
-func (f *fixedHasher) SumHash() hash.Hash              { return append([]byte{}, f.out...) }
-func (f *fixedHasher) Reset()                          {}
+func (f *fixedHasher) Size() int                        { return len(f.out) }
+func (f *fixedHasher) ComputeHash([]byte) hash.Hash     { return append([]byte{}, f.out...) }
+func (f *fixedHasher) Write(p []byte) (int, error)      { return len(p), nil }
+func (f *fixedHasher) SumHash() hash.Hash               { return append([]byte{}, f.out...) }
+func (f *fixedHasher) Reset()                           {}
 
 type hasherSpec struct {
 	Kind string `json:"kind"` // kmac | fixed | nil | size
@@ -62,9 +62,44 @@ func init() {
 		PropCheck: "prop_bad_ids",
 		Gen:       c01Gen,
 		Run:       c01Run,
-		Rule:      "groups (key, hasher, message) with a list of candidate signature strings: the valid one, single-bit flips, negation, s+T for cofactor-torsion T (random and small order), s+delta with delta in G1, x>=p, all flag combinations, infinity variants, other message/key/tag, lengths 0..200; keys 1, 2, r-1, generated, decoded, aggregated (incl. sums to 0) and the identity public key; KMAC and fixed-output hashers (halves all-0xff, >= p); nil and wrong-size hashers. distinct by the full group; non-trivial if at least one candidate has the right length",
+		Rule:      "groups (key, hasher, message) with a list of candidate signature strings: the valid one, single-bit flips, negation, s+T for cofactor-torsion T (random and small order), s+delta with delta in G1, x>=p, all flag combinations, infinity variants, other message/key/tag, lengths 0..200; keys 1, 2, r-1, generated, decoded, aggregated (incl. sums to 0) and the identity public key; KMAC and fixed-output hashers (halves all-0xff, >= p, equal halves, halves congruent mod p, a half 0 or a multiple of p, SSWU exceptional u with Z u^2 = -1, u1 = -u0); every group carries the 128-byte hasher output and the model map_to_G1 of it is compared with H(m) (for KMAC the output itself is recomputed from tag and message); nil and wrong-size hashers. distinct by the full group; non-trivial if at least one candidate has the right length",
 		Shard:     3,
 	})
+}
+
+// e1DecompressSafe is e1Decompress for bytes that may not encode a point: ok is false when the
+// length is wrong, the compression flag is missing, x >= p, an infinity encoding has stray bits
+// or x^3 + 4 is not a square.
+func e1DecompressSafe(b []byte) (pt e1pt, ok bool) {
+	if len(b) != 48 || b[0]&0x80 == 0 {
+		return e1pt{}, false
+	}
+	if b[0]&0x40 != 0 {
+		if b[0] != 0xC0 {
+			return e1pt{}, false
+		}
+		for _, x := range b[1:] {
+			if x != 0 {
+				return e1pt{}, false
+			}
+		}
+		return e1pt{inf: true}, true
+	}
+	xb := append([]byte{}, b...)
+	xb[0] &= 0x1F
+	x := new(big.Int).SetBytes(xb)
+	if x.Cmp(blsP) >= 0 {
+		return e1pt{}, false
+	}
+	y := fpSqrt(fpAdd(fpMul(fpMul(x, x), x), e1B))
+	if y == nil {
+		return e1pt{}, false
+	}
+	half := new(big.Int).Rsh(new(big.Int).Sub(blsP, big.NewInt(1)), 1)
+	if (y.Cmp(half) > 0) != (b[0]&0x20 != 0) {
+		y = fpSub(big.NewInt(0), y)
+	}
+	return e1pt{x, y, false}, true
 }
 
 func bigHex(s string) *big.Int { x, _ := new(big.Int).SetString(s, 16); return x }
@@ -151,6 +186,45 @@ func c01Gen(tier string, r *rand.Rand) []Case {
 	copy(pp[80:128], fixed(new(big.Int).Add(blsP, big.NewInt(1)), 48))
 	for _, out := range [][]byte{ff, pp, make([]byte, 128), rbytes(r, 128)} {
 		mk("hasher-fixed", c01In{KeyKind: "generated", Seed: hx(rbytes(r, 32)), Hasher: hasherSpec{Kind: "fixed", Out: hx(out)}, Msg: "", Derive: append(append([]string{}, baseDerive...), flips(2)...)})
+	}
+	// hash-to-curve edge inputs (the two 64-byte halves of the hasher output are reduced mod p to
+	// u0, u1): u0 = u1 (the addition on E1' is a doubling and needs the curve's a), halves congruent
+	// mod p but different integers, a half that is 0 / a multiple of p, the SSWU exceptional inputs
+	// u = 0 and u = +-sqrt(-1/Z), u1 = -u0 (the sum on E1' is the point at infinity), halves >= p
+	half := func(x *big.Int) []byte { return fixed(x, 64) }
+	cat := func(a, b []byte) []byte { return append(append([]byte{}, a...), b...) }
+	rnd64 := func() *big.Int { return new(big.Int).SetBytes(rbytes(r, 64)) }
+	modp := func(x *big.Int) *big.Int { return new(big.Int).Mod(x, blsP) }
+	excU := new(big.Int).ModSqrt(modp(new(big.Int).Neg(new(big.Int).ModInverse(big.NewInt(11), blsP))), blsP) // u^2 = -1/Z
+	var h2c [][]byte
+	e := rnd64()
+	h2c = append(h2c, cat(half(e), half(e))) // equal halves
+	sm := modp(rnd64())
+	h2c = append(h2c, cat(half(sm), half(sm)))                         // equal halves < p
+	h2c = append(h2c, cat(half(sm), half(new(big.Int).Add(sm, blsP)))) // congruent, different integers
+	k := new(big.Int).Mul(blsP, new(big.Int).SetBytes(rbytes(r, 15)))
+	h2c = append(h2c, cat(half(new(big.Int).Add(sm, k)), half(sm)))           // congruent, large multiple
+	h2c = append(h2c, cat(half(new(big.Int)), half(rnd64())))                 // u0 = 0
+	h2c = append(h2c, cat(half(rnd64()), half(new(big.Int))))                 // u1 = 0
+	h2c = append(h2c, cat(half(blsP), half(rnd64())))                         // u0 = p = 0 mod p
+	h2c = append(h2c, cat(half(k), half(k)))                                  // both multiples of p
+	h2c = append(h2c, cat(half(excU), half(rnd64())))                         // Z u0^2 = -1
+	h2c = append(h2c, cat(half(rnd64()), half(new(big.Int).Sub(blsP, excU)))) // Z u1^2 = -1
+	h2c = append(h2c, cat(half(excU), half(excU)))                            // both exceptional and equal
+	h2c = append(h2c, cat(half(excU), half(new(big.Int))))                    // both exceptional, different
+	h2c = append(h2c, cat(half(sm), half(new(big.Int).Sub(blsP, sm))))        // u1 = -u0: sum is infinity
+	h2c = append(h2c, cat(half(new(big.Int).Add(sm, blsP)), half(modp(new(big.Int).Neg(new(big.Int).Add(sm, blsP))))))
+	h2c = append(h2c, cat(half(big.NewInt(1)), half(big.NewInt(1)))) // u0 = u1 = 1
+	h2c = append(h2c, cat(half(new(big.Int).Sub(blsP, big.NewInt(1))), half(new(big.Int).Add(blsP, big.NewInt(1)))))
+	if thorough {
+		for i := 0; i < 12; i++ {
+			x := rnd64()
+			h2c = append(h2c, cat(half(x), half(modp(x))))
+			h2c = append(h2c, cat(half(modp(x)), half(new(big.Int).Sub(blsP, modp(x)))))
+		}
+	}
+	for _, out := range h2c {
+		mk("hasher-h2c", c01In{KeyKind: "generated", Seed: hx(rbytes(r, 32)), Hasher: hasherSpec{Kind: "fixed", Out: hx(out)}, Msg: "", Derive: []string{"valid", "negated", "infinity", "plusT"}})
 	}
 	// hasher guards
 	mk("hasher-nil", c01In{KeyKind: "scalar", Scalar: hx(fixed(big.NewInt(9), 32)), Hasher: hasherSpec{Kind: "nil"}, Msg: "00"})
@@ -270,8 +344,16 @@ func c01Run(c Case) (Result, error) {
 		}
 		cands = append(cands, cand{fam, hx(b), verdictClass(ok, e)})
 	}
-	sp := e1Decompress(valid)
+	// the library's outputs are never trusted to be points: when Sign's output or H(m) does not
+	// decompress (a broken hash-to-curve returns off-curve coordinates), the candidates derived
+	// from the point are skipped and the group is still emitted; the Coq side then flags it
+	sp, spOK := e1DecompressSafe(valid)
+	hp, hpOK := e1DecompressSafe(hEnc)
+	needsPoint := map[string]bool{"negated": true, "plusT": true, "plusT3": true, "plusDelta": true, "xgep": true}
 	for _, d := range in.Derive {
+		if needsPoint[d] && !(spOK && hpOK) {
+			continue
+		}
 		switch {
 		case d == "valid":
 			add(d, valid)
@@ -283,7 +365,7 @@ func c01Run(c Case) (Result, error) {
 			add(d, e1Compress(e1Add(sp, e1SmallOrder(rr, 3))))
 			add("plusT11", e1Compress(e1Add(sp, e1SmallOrder(rr, 11))))
 		case d == "plusDelta":
-			delta := e1Mul(big.NewInt(int64(1+rr.IntN(1000))), e1Decompress(hEnc))
+			delta := e1Mul(big.NewInt(int64(1+rr.IntN(1000))), hp)
 			add(d, e1Compress(e1Add(sp, delta)))
 		case d == "xgep":
 			// x + p (same residue, non-reduced coordinate) if it fits in 381 bits
@@ -348,7 +430,14 @@ func c01Run(c Case) (Result, error) {
 	for _, cd := range cands {
 		items = append(items, fmt.Sprintf("(%s, %s)", cqs(cd.Bytes), cqs(cd.V)))
 	}
-	term := fmt.Sprintf("SigCase %s %s %s %s %s", cqs(hx(fixed(scalar, 32))), cqs(hx(hEnc)), cqbool(in.IdPk), cqs(hx(valid)), cqlist(items))
+	// the hasher's output for the message (what map_to_G1 receives) and, for the library's own
+	// hasher, the tag and message it is computed from
+	hout := []byte(hs.ComputeHash(msg))
+	hsrc := "HFixed"
+	if in.Hasher.Kind == "kmac" {
+		hsrc = fmt.Sprintf("(HKmac %s %s)", cqs(hx([]byte(in.Hasher.Tag))), cqs(hx(msg)))
+	}
+	term := fmt.Sprintf("SigCaseH %s %s %s %s %s %s %s", cqs(hx(fixed(scalar, 32))), cqs(hx(hEnc)), cqbool(in.IdPk), cqs(hx(valid)), cqlist(items), hsrc, cqs(hx(hout)))
 	return Result{Coq: term, Key: string(c.Input), Nontrivial: nontrivial,
-		Obs: map[string]any{"scalar": hx(fixed(scalar, 32)), "H": hx(hEnc), "sign": hx(valid), "candidates": cands}}, nil
+		Obs: map[string]any{"scalar": hx(fixed(scalar, 32)), "H": hx(hEnc), "hasher_output": hx(hout), "sign": hx(valid), "candidates": cands}}, nil
 }
